@@ -16,3 +16,10 @@ def regen_pyapi():
     txt, info, _ = pyapi2coq.generate(os.path.join(here, "build", "target", "debug", "zerv"))
     pyapi2coq.write_if_changed(os.path.join(here, "coq", "Gen", "PyApiGen.v"), txt)
     return info
+
+
+def regen_tables():
+    import tables2coq
+    txt, info = tables2coq.generate()
+    tables2coq.write_if_changed(os.path.join(os.path.dirname(os.path.abspath(__file__)), "coq", "Gen", "TablesSrc.v"), txt)
+    return info
